@@ -40,6 +40,7 @@ type vcase struct {
 	History  []opRec  `json:"history"`      // operations that lead to the state (all accepted)
 	Op       *opRec   `json:"op,omitempty"` // the operation judged (check=step)
 	Rounds   int      `json:"rounds,omitempty"`
+	Wide     bool     `json:"wide_pool,omitempty"` // addresses index the 24-address pool of the wide phase
 	State    string   `json:"state_before"`
 	Expected []string `json:"expected_signatures"`
 }
@@ -519,9 +520,20 @@ func replayCase(c vcase) []finding {
 	var vs *types.ValidatorSet
 	var st state
 	var out []finding
+	if c.Wide {
+		if widePool == nil && !initWidePool() {
+			return []finding{{"C12|oracle=harness-replay", "wide pool", nil}}
+		}
+		prev := pool
+		usePool(widePool)
+		defer usePool(prev)
+	}
 	if c.Check == "construct" {
 		_, _, fs := checkConstruct(c.Vector)
 		return fs
+	}
+	if c.Check == "wide" {
+		return replayWide(c)
 	}
 	vs, err := build(c.Vector, c.History)
 	if err != nil {
@@ -641,6 +653,7 @@ func main() {
 		panicked, _ := safely(func() { err = c.UpdateWithChangeSet([]*types.Validator{types.NewValidator(zero, 5)}) })
 		r.Set("info_change_for_all_zero_address", fmt.Sprintf("UpdateWithChangeSet([{0x00..00, power 5}]) on %v: panicked=%v err=%v", vectors[0], panicked, err))
 	}
+	runWide()
 	complete := true
 	var doneStages []string
 	for _, s := range stages {
@@ -708,6 +721,7 @@ func main() {
 		"which includes remove-all and total-above-cap sets; plus every individually invalid entry {power -1 on each address, -cap, cap+1, removal of an unknown address} and every duplicate-address pair {(5,5),(5,1000),(5,remove),(remove,remove)} next to every choice of <= k-1 resp. k-2 partner entries {power 5, remove} on the other addresses; "+
 		"EVERY distinct permutation of every change set is executed on its own copy. Stages: A = k<=2, all histories of depth 3; B = k<=3, depth 2; C = k<=3, depth 3; D = k<=3, depth 4 (quick runs A only; thorough runs A,B then C,D until the deadline). "+
 		"States are de-duplicated on (ordered (address,power,priority) list, proposer); states = distinct states reached (frontier states by 64-bit hash); transitions = operations executed on real objects. "+
+		"Phase 'wide change sets' (every tier, before the stages): from roots [1], [1,2], [cap/2], [cap/4+1,1] over a 24-address pool, change sets of EVERY size n = 1..17 for P in {cap, cap-1, cap/2+1, cap/4+1, cap/8+1, cap/16+1, 1}: n adds of P; raise every member to P plus adds; remove one member, raise the rest, plus adds; adds with powers cycling (P,1,cap/4+1); n-1 adds of P plus a last add that makes the total exactly cap resp. cap+1 - so the requested totals fall in every class <=cap, (cap,2^62), [2^62,2^63), [2^63,2^64), >=2^64; each executed in its given order, rotated by 1, rotated by n/2 and reversed, accepted results probed and advanced one round. "+
 		"From every state of depth < max the per-state oracles run: cached total, RescalePriorities(2*total) against the reference, and (total <= 2000) the proposer sequence of 2*total further rounds against the reference.")
 	r.Assume(
 		"the specification is DESIGN.md appendix A.4 (Tendermint proposer-priority rules) transcribed in math/big by the checker (ref.go)",
